@@ -1,5 +1,6 @@
 import Driver.C04
 import Driver.C02
+import Driver.C01
 /-! `asldrv <mode>`: one request per input line, one answer per output line. -/
 open Driver
 
@@ -12,7 +13,8 @@ partial def loop (h : IO.FS.Stream) (out : IO.FS.Stream) (f : String → String)
 def modes : List (String × (String → String)) := [
   ("c04", C04.handle),
   ("pfile", C04.handleParse),
-  ("c02", C02.handle)
+  ("c02", C02.handle),
+  ("c01", C01.handle)
 ]
 
 def main (args : List String) : IO UInt32 := do
